@@ -75,8 +75,9 @@ def check_C13(chk, tier, seed):
         if tls == 1 and srv == "tls" and addr == "host":
             cases.append(f"TLS {tls} {verify} {srv} {cert} {addr} MARKD{i:04d}q{seed % 1000} dribble")
             meta.append((tls, verify, srv, cert, addr))
-    # the ports IANA lists for Diameter (3868) and Diameter over TLS (5658): the configuration decides, not the port
-    for port in (3868, 5658):
+    # the port IANA lists for Diameter over TLS (5658): the configuration decides, not the port.  (3868 is left alone: the
+    # repository's own transport test binds it, and a check must not be able to disturb a test run going on next to it.)
+    for port in (5658,):
         for (tls, verify, srv, cert) in ((0, 0, "plain", "match"), (0, 1, "tls", "match"), (1, 1, "tls", "match"), (1, 0, "plain", "match")):
             cases.append(f"TLS {tls} {verify} {srv} {cert} host MARKP{port}{tls}{verify}q{seed % 1000} port={port}")
             meta.append((tls, verify, srv, cert, "host"))
